@@ -206,7 +206,7 @@ impl Iterator for OsuGradualDifficulty {
 
 impl ExactSizeIterator for OsuGradualDifficulty {
     fn len(&self) -> usize {
-        self.diff_objects.len() + 1 - self.idx
+        self.diff_objects.len() + usize::from(!self.osu_objects.is_empty()) - self.idx
     }
 }
 
